@@ -2,8 +2,13 @@
 EXTENDS DnsRetry
 Init == \E ns \in 1..2, T \in {<<1>>, <<1, 2>>} : InitWith([ns |-> ns, T |-> T, idmax |-> 2])
 Spec == Init /\ [][Next]_vars
-Bound == /\ Len(hs) <= 3 /\ Len(jobs) <= 2 /\ Len(conns) <= 2 /\ now <= 14 /\ Len(tq) <= 3
-         /\ TLCGet("level") <= 8
-BoundDeep == Len(hs) <= 2 /\ Len(jobs) <= 1 /\ Len(conns) <= 1 /\ Len(tq) <= 1 /\ now <= 20 /\ TLCGet("level") <= 14
+Sizes == Len(hs) <= 3 /\ Len(jobs) <= 2 /\ Len(conns) <= 2 /\ now <= 14 /\ Len(tq) <= 3
+\* breadth: two names, piggy-backing, two TCP connections, every kind of answer
+Bound  == Sizes /\ TLCGet("level") <= 6
+BoundT == Sizes /\ TLCGet("level") <= 9
+\* depth: one job followed through the whole retransmission schedule (ns = 2, T = <<1,2>> needs 9 steps) and the TCP leg
+Deep == Len(hs) <= 2 /\ Len(jobs) <= 1 /\ Len(conns) <= 1 /\ Len(tq) <= 1 /\ now <= 20
+BoundDeep  == Deep /\ TLCGet("level") <= 13
+BoundDeepT == Deep /\ TLCGet("level") <= 18
 View == <<cfg, now, hs, jobs, att, timers, rr, conns, up, pend, tq>>
 =============================================================================
